@@ -991,7 +991,7 @@ impl ReCompiler {
                         }
                         _ => {
                             // TODO: wrong whitespace
-                            if nesting == 0 && ch.is_ascii_whitespace() {
+                            if nesting == 0 && matches!(ch, '\t' | '\n' | '\r' | ' ') {
                                 // no action
                             } else {
                                 escaped = false;
